@@ -32,7 +32,7 @@ CHECKS = {
     ),
     "C05": dict(
         technique="exhaustive boundary grid (11k points: instants x offset pairs x +-1us/1s around the threshold x all country plugins / generic periods) + Hypothesis-generated multi-lot disposals; integer-microsecond oracle + end-to-end tier (files -> CLI -> report cells -> same predicate)",
-        text="The grid part enumerates its finite sub-domain completely (grid_exhaustive=true); the generated part covers multi-lot disposals with lots on both sides of the threshold, income events and random offsets. Second tier, same predicate: generated multi-asset files through the real console entry point, figures read back from rp2_full_report.ods with no rp2 code in the checking process.",
+        text="The grid part enumerates its finite sub-domain completely (grid_exhaustive=true); the generated part covers multi-lot disposals with lots on both sides of the threshold, income events and random offsets. Second tier, same predicate: generated multi-asset files through the real console entry point, figures read back from rp2_full_report.ods with no rp2 code in the checking process. The yearly summary is judged as well: per (year, type) the crypto amount filed under LONG / SHORT must equal the total of the fractions that the two timestamps make long- / short-term; every disposal type (OUT/STAKING included) and every earn type is drawn; UTC offsets with minutes on both sides of zero.",
         note="Periods that cannot be reached before year 9999 (10^9 days, JP/IE) are exercised as 'never'; generic plugin built under a patched environment.",
         design="DESIGN.md section 4 / C05",
     ),
@@ -44,7 +44,7 @@ CHECKS = {
     ),
     "C07": dict(
         technique="property-based testing (Hypothesis): per-account flow model from the rows vs balance_set, plus reconciliation sum(final) = lots - consumed + end-to-end tier (files -> CLI -> report cells -> same predicate)",
-        text="Multi-account (joint filing) histories with transfers incl. to-self, to-date cuts and, with -n, injected overdrafts; exact equality of acquired/sent/received/final per account and of the reconciliation identity. Second tier, same predicate: generated multi-asset files through the real console entry point, figures read back from rp2_full_report.ods with no rp2 code in the checking process.",
+        text="Multi-account (joint filing) histories with transfers incl. to-self, to-date cuts and, with -n, injected overdrafts; exact equality of acquired/sent/received/final per account and of the reconciliation identity. Second tier, same predicate: generated multi-asset files through the real console entry point, figures read back from rp2_full_report.ods with no rp2 code in the checking process. The balances are reconciled a second time through the sold percentages of the acquisitions (API and the report's Sent/Sold column), and a from-date must not change a single balance figure.",
         note="Per-holder totals are a report-level figure (C13); whole-holding over-spends are C02's subject and skipped.",
         design="DESIGN.md section 4 / C07",
     ),
@@ -62,7 +62,7 @@ CHECKS = {
     ),
     "C10": dict(
         technique="metamorphic property-based testing (Hypothesis): unfiltered vs to-date-only vs from+to runs of the same history; independent recount of k/n labels + end-to-end tier (two CLI runs per case, window vs none, -m or [accounting_methods])",
-        text="Windows on/around/between transaction dates, empty windows, from==to; identical figures for shown fractions, exact window membership of transactions, balances/average price/labels as of the to-date, yearly lines from the from-year. One listed known finding (F7, non-monotone local dates) is matched by signature. Second tier: the console entry point run with and without the window on the same files; windowed detail rows must be the unfiltered rows dated in the window, figure by figure.",
+        text="Windows on/around/between transaction dates, empty windows, from==to; identical figures for shown fractions, exact window membership of transactions, balances/average price/labels as of the to-date, yearly lines from the from-year. One listed known finding (F7, non-monotone local dates) is matched by signature. Second tier: the console entry point run with and without the window on the same files; windowed detail rows must be the unfiltered rows dated in the window, figure by figure. The average price is also compared with an independent value (cost incl. fees of everything acquired up to the to-date / amount acquired).",
         note="Date-monotone histories (R3) except in the sub-generator aimed at F7; sold-percentage is judged by C13.",
         design="DESIGN.md section 4 / C10",
     ),
@@ -75,19 +75,19 @@ CHECKS = {
     "C12": dict(
         category="fault_enumeration",
         technique="fault injection driven by Hypothesis: one fault from a ~110-class catalogue at a generated applicable position of a generated valid input; fail-closed predicate on real CLI runs",
-        text="Each case is one real run of rp2_<country> on a valid base input (several flavours: mixed, buy-only, income-only, transfer-heavy) with exactly one documented fault; fault classes are weighted by their number of applicable positions; oracle = non-zero exit AND error text AND no report written. Fault classes hit are listed in the evidence; a sixth of the cases also verify that the fault-free base is accepted.",
+        text="Each case is one real run of rp2_<country> on a valid base input (several flavours: mixed, buy-only, income-only, transfer-heavy) with exactly one documented fault; fault classes are weighted by their number of applicable positions; oracle = non-zero exit AND error text AND no report written. Fault classes hit are listed in the evidence; a sixth of the cases also verify that the fault-free base is accepted. A third of the row / structure / config faults are run with a -f / -t window as well (a fault in a row outside the window is still a fault).",
         note="Faults only in data rows; R5/R6 ambiguities are not injected; which message is printed is not asserted.",
         design="DESIGN.md section 4 / C12",
     ),
     "C16": dict(
         technique="property-based testing (Hypothesis) of CLI totality over the option matrix country x method/schedule x language x window x -n x -a x -p crossed with generated valid inputs; crash bucketing by innermost rp2 frame",
-        text="Each case is one real run in a fresh process; oracle = exit 0, no traceback, every configured report written under the expected name and readable. Found and now guards F2, F3, F4, F5, F11 (all fixed).",
+        text="Each case is one real run in a fresh process; oracle = exit 0, no traceback, every configured report written under the expected name and readable. Found and now guards F2, F3, F4, F5, F11 (all fixed). Inputs also carry the volume tail, large holdings and dust, supplied fiat columns, unique ids typed as numbers, two look-alike long asset names, tied fills on rows 9|10 / 99|100, and configurations with the documented `generators` field.",
         note="JP with -f and -t together is a refused combination (R11); schedules start no later than the first year of the history (R10).",
         design="DESIGN.md section 4 / C16",
     ),
     "C18": dict(
         technique="exhaustive ast scan of every rp2 module against a network/process deny-list + Hypothesis-generated CLI runs (valid and faulty inputs) under an interpreter audit hook with input hashing; decoy files outside the output directory, environment switches, half of the runs on faulty inputs",
-        text="Static half enumerates the finite set of modules completely; dynamic half judges socket/ssl/http/subprocess/os.exec/fork events, every path opened for writing or renamed/removed/created, import_module calls from rp2 frames, SHA-256 and mtime of the inputs. Look-alike files (report names, .bak) planted in cwd, $HOME and a sibling of the output directory must stay untouched; the output directory may hold nothing but the reports.",
+        text="Static half enumerates the finite set of modules completely; dynamic half judges socket/ssl/http/subprocess/os.exec/fork events, every path opened for writing or renamed/removed/created, import_module calls from rp2 frames, SHA-256 and mtime of the inputs. Look-alike files (report names, .bak) planted in cwd, $HOME and a sibling of the output directory must stay untouched; the output directory may hold nothing but the reports. Decoys also lie inside the output directory (somebody else's reports, a copy of the input), and one scenario makes ./log a regular file with $TMPDIR redirected into the sandbox.",
         note="Audit hooks see interpreter-level events only; third-party dependencies are trusted base.",
         design="DESIGN.md section 4 / C18",
     ),
@@ -105,7 +105,7 @@ CHECKS = {
     ),
     "C15": dict(
         technique="property-based testing (Hypothesis) of real CLI runs with read-back of open_positions.ods against a conservation-law model (unrealised cost from unconsumed lot parts, balances from the computed balance set)",
-        text="Multi-asset, multi-holder inputs incl. fully sold, income-only and buy-only assets and random to-dates; row sets of both sheets, balances, per-unit cost, cost bases adding up to the unrealised cost, weights adding up to 1, realised + unrealised = total cost. Exchange-supplied fiat columns (free to disagree with amount x price) are generated.",
+        text="Multi-asset, multi-holder inputs incl. fully sold, income-only and buy-only assets and random to-dates; row sets of both sheets, balances, per-unit cost, cost bases adding up to the unrealised cost, weights adding up to 1, realised + unrealised = total cost. Exchange-supplied fiat columns (free to disagree with amount x price) are generated. Balances are taken from the generated rows (not from rp2's balance set) and what was consumed up to the to-date is selected by the checker, by the event's own date, from a run without a to-date; to-dates are also placed between a transaction's own date and its UTC date.",
         note="Sums compared to 1e-12 relative; assets whose unrealised cost is below 1e-12 are not judged (R13).",
         design="DESIGN.md section 4 / C15",
     ),
@@ -117,7 +117,7 @@ CHECKS = {
     ),
     "C19": dict(
         technique="property-based testing (Hypothesis) of real CLI runs: every HYPERLINK formula of the Tax and Summary sheets is resolved and the target row compared (unique id, timestamp, table direction); hidden transactions must be unlinked",
-        text="Inputs biased to several assets sharing sheet row numbers, shuffled rows and from-dates hiding consumed lots; found and now guards F6 (fixed).",
+        text="Inputs biased to several assets sharing sheet row numbers, shuffled rows and from-dates hiding consumed lots; found and now guards F6 (fixed). The asset's sheets must be addressable (exactly one sheet of each expected name; duplicate names are visible to the reader) before any link is judged; large holdings that give up a sliver only (sold percentage below rp2's resolution) are generated on purpose.",
         note="Unique ids are distinct per spreadsheet row; artificial fee rows are told apart by table.",
         design="DESIGN.md section 4 / C19",
     ),
